@@ -79,8 +79,8 @@ const ALL_PROPS: [&str; 16] = [
     "C18", "C20", "C14",
 ];
 
-struct Hist {
-    ops: Vec<Op>,
+pub struct Hist {
+    pub ops: Vec<Op>,
 }
 
 fn gen_history(p: &mut Prng, arch: Arch, n_ops: usize) -> Hist {
@@ -231,7 +231,7 @@ fn context_of(lines: &[String], upto: usize) -> String {
     lines[..=upto].join("\n")
 }
 
-fn run_history<H: ArchH>(rep: &mut Report, h: &Hist, hist_id: u64, all_gens: &mut Vec<u16>) {
+pub fn run_history<H: ArchH>(rep: &mut Report, h: &Hist, hist_id: u64, all_gens: &mut Vec<u16>) {
     let arch = H::ARCH.name();
     let mut w: World<H> = World::new();
     let n_slots = cache_entry_count();
@@ -399,20 +399,99 @@ fn run_history<H: ArchH>(rep: &mut Report, h: &Hist, hist_id: u64, all_gens: &mu
             }
         }
     }
-    // ---------------------------------------------------------------- correspondence
+    PENDING.with(|q| {
+        q.borrow_mut().push(Pending {
+            arch: arch.to_string(),
+            hist_id,
+            lines,
+            impl_outs,
+            cmds,
+        })
+    });
+    let n = PENDING.with(|q| q.borrow().len());
+    if n >= 64 {
+        flush(rep);
+    }
+}
+
+pub struct Pending {
+    arch: String,
+    hist_id: u64,
+    lines: Vec<String>,
+    impl_outs: Vec<String>,
+    cmds: Vec<String>,
+}
+
+thread_local! {
+    static PENDING: std::cell::RefCell<Vec<Pending>> = const { std::cell::RefCell::new(Vec::new()) };
+}
+
+/// Sends all pending histories to one Lean driver process and compares.
+pub fn flush(rep: &mut Report) {
+    let batch: Vec<Pending> = PENDING.with(|q| std::mem::take(&mut *q.borrow_mut()));
+    if batch.is_empty() {
+        return;
+    }
+    let mut all: Vec<String> = Vec::new();
+    for b in &batch {
+        all.extend(b.lines.iter().cloned());
+    }
+    let outs = run_model(&all);
+    let mut pos = 0;
+    for b in batch {
+        let n = b.lines.len();
+        compare_history(rep, &b, &outs[pos..pos + n]);
+        pos += n;
+    }
+}
+
+fn compare_history(rep: &mut Report, b: &Pending, raw_model_outs: &[String]) {
+    let arch = b.arch.as_str();
+    let hist_id = b.hist_id;
+    let lines = &b.lines;
+    let impl_outs = &b.impl_outs;
+    let cmds = &b.cmds;
     rep.cases += lines.len() as u64 - 1;
     let mut branches: Vec<String> = Vec::new();
-    let model_outs: Vec<String> = run_model(&lines)
-        .into_iter()
+    let mut specs: Vec<Option<String>> = Vec::new();
+    let model_outs: Vec<String> = raw_model_outs
+        .iter()
+        .cloned()
         .map(|a| {
             let (a, br) = crate::model::split_branch(&a);
             if let Some(br) = &br {
                 rep.count(&format!("{arch} model branch {br}"));
             }
             branches.push(br.unwrap_or_default());
+            let (a, spec) = crate::model::split_spec(&a);
+            if spec.is_some() {
+                rep.count(&format!("{arch} in the domain of the C05 theorems"));
+            }
+            specs.push(spec);
             a
         })
         .collect();
+    // C05 / C01: the implementation against the DWARF specification, wherever the theorems'
+    // hypotheses hold (decided by the Lean driver)
+    for (idx, spec) in specs.iter().enumerate() {
+        if let Some(expect) = spec {
+            let got: String = impl_outs[idx]
+                .split(' ')
+                .filter(|t| !t.starts_with("stats=") && !t.starts_with("t="))
+                .collect::<Vec<_>>()
+                .join(" ");
+            if &got != expect && expect.starts_with("done ") {
+                let kind = if lines[idx].contains(" kind=ra ") { "caller" } else { "first" };
+                add_oracle(rep, &["C05", "C01", "C11"], &format!("dwarf-undefined-ra-not-end-of-stack-{arch}-{kind}-{}", branches[idx]),
+                    "the row declares the return address undefined (root function) but the step does not end the walk".to_string(),
+                    context_of(lines, idx), &got);
+            } else if &got != expect {
+                add_oracle(rep, &["C05", "C01"], &format!("dwarf-step-differs-from-spec-{arch}-{}", branches[idx]),
+                    format!("one step does not do what DWARF prescribes for the row: expected {expect}"),
+                    context_of(lines, idx), &got);
+            }
+        }
+    }
     rep.compared_with_model += model_outs.len() as u64 - 1;
     for (idx, ((line, i), m)) in lines.iter().zip(impl_outs.iter()).zip(model_outs.iter()).enumerate() {
         rep.note_distinct(&format!("{hist_id}:{}", &line[line.find(' ').map(|x| x + 1).unwrap_or(0)..]));
@@ -431,7 +510,7 @@ fn run_history<H: ArchH>(rep: &mut Report, h: &Hist, hist_id: u64, all_gens: &mu
                 kind: "correspondence".into(),
                 key: format!("world-{arch}-{cmd}-{}", branches[idx]),
                 what: format!("`{cmd}` differs from the Lean model (FH/World.lean)"),
-                case: context_of(&lines, idx),
+                case: context_of(lines, idx),
                 impl_out: i.clone(),
                 model_out: m.clone(),
             });
@@ -581,7 +660,7 @@ fn iter_fresh<H: ArchH>(unw: &H::Unw, pc: u64, regs: &RegsAny, mem: &crate::mem:
 pub fn run(tier: &str, seed: u64) -> Report {
     let mut rep = Report::new("hist");
     let mut p = Prng::new(seed.wrapping_mul(0x1234_5678_9abc_def1).wrapping_add(7));
-    let (n_hist, n_ops) = if tier == "thorough" { (6000u64, 120usize) } else { (300u64, 80usize) };
+    let (n_hist, n_ops) = if tier == "thorough" { (60000u64, 120usize) } else { (2500u64, 80usize) };
     let mut gens_x = Vec::new();
     for i in 0..n_hist {
         let arch = if i % 2 == 0 { Arch::X64 } else { Arch::A64 };
@@ -592,6 +671,7 @@ pub fn run(tier: &str, seed: u64) -> Report {
             Arch::A64 => run_history::<A64H<MayAllocateDuringUnwind>>(&mut rep, &h, i, &mut gens_x),
         }
     }
+    flush(&mut rep);
     // C18 across histories: all draws of this process distinct while fewer than 65536.
     if gens_x.len() < 65536 {
         let mut seen = HashSet::new();
